@@ -23,7 +23,8 @@ CONSTANTS RelMd,        \* relative agreement demanded well above the floor
           SlackRec,     \* slack over the floor, solvers with recursively updated residual
           SlackNew,     \* slack over the floor, solvers that recompute the residual from x
           TolSlack,     \* rep <= tol  =>  tru <= tol + TolSlack (or the floor)
-          RateBand      \* Richardson: |observed - reference| reduction over 4 steps
+          RateBand,     \* Richardson: |observed - reference| reduction over 4 steps
+          DivergeBand   \* Richardson on spd_m: growth of the residual over 8 steps that counts as divergence
 
 VARIABLES l, bad
 
@@ -61,7 +62,11 @@ RetClauses(r) ==
             <<"below-tol-is-solved", (jd /\ r.zero = 0 /\ TruthJudged(r) /\ r.rep <= r.tol) =>
                     r.tru <= Max(r.tol + TolSlack, r.flo + Slack(r))>>,
             <<"reported=true-residual", (jd /\ TruthJudged(r)) => r.dev <= Max(r.tru - RelMd, r.flo + Slack(r))>>,
-            <<"spd-default-converges", promised => (jd /\ r.it < 100 /\ r.rep <= -8000)>> >>
+            <<"spd-default-converges", promised => (jd /\ r.it < 100 /\ r.rep <= -8000)>>,
+            \* dflt = 2 (modes restart, cyc; family spd_m, contrast <= 10): restarted methods with small restart
+            \* lengths over many cycles (fresh and reused object) and cycles without pre-smoothing (npre = 0 with
+            \* ncycle / pre_cycles in {2,3}) converge within the budget
+            <<"converges-within-budget", (wf /\ r.dflt = 2) => (jd /\ r.it < r.maxit /\ r.rep <= r.tol)>> >>
 
 \* Richardson on spd_m: the per-step reduction is the contraction of the cycle (compared
 \* while the residual is above 1e-11, i.e. clear of the rounding floor)
@@ -74,10 +79,24 @@ RateClauses(r) ==
             <<"richardson-converges-when-cycle-contracts", (wf /\ r.ok = 1 /\ r.r12 >= -11000) =>
                 (r.ref23 < -RateBand => r.obs23 < 0)>> >>
 
+\* recomputed residual of gmres / fgmres / lgmres at the restart boundaries c * (M + K), c = 1..6
+RestartClauses(r) ==
+    LET wf == Has(r, "ok") /\ Has(r, "inc") /\ Has(r, "seq")
+    IN  <<  <<"restart-wellformed", wf>>,
+            <<"restart-residual-non-increasing", wf => (r.ok = 1 /\ r.inc <= -9000)>> >>
+\* Richardson with the cycle as the only preconditioner: residual after 16 steps against 8 steps
+ContractClauses(r) ==
+    LET wf == Has(r, "ok") /\ (r.ok = 1 => (Has(r, "r8") /\ Has(r, "r16")))
+    IN  <<  <<"contract-wellformed", wf>>,
+            <<"richardson-does-not-diverge", wf => (r.ok = 1 /\ (r.r8 <= -11000 \/ r.r16 <= r.r8 + DivergeBand))>> >>
+
 Failed(r) == IF Has(r, "e") THEN (IF r.e = "End" THEN <<>> ELSE <<"recorder:" \o r.e>>)
              ELSE IF ~Has(r, "k") THEN <<"unknown-record">>
              ELSE IF r.k = "ret" THEN FailedOf(RetClauses(r))
              ELSE IF r.k = "rate" THEN FailedOf(RateClauses(r))
+             ELSE IF r.k = "restart" THEN FailedOf(RestartClauses(r))
+             ELSE IF r.k = "contract" THEN FailedOf(ContractClauses(r))
+             ELSE IF r.k = "abort" THEN (IF Has(r, "thrown") THEN <<>> ELSE <<"abort-wellformed">>)
              ELSE <<"unknown-record">>
 
 TInit == l = 1 /\ bad = <<>>
